@@ -1,30 +1,22 @@
 //! Consts.lean — constants and comparison operators the properties depend on (DESIGN §2.2 row 3).
 //!
-//! Recognised grammar (one targeted lookup each; every lookup must succeed exactly once)
+//! Recognised grammar (one targeted lookup each; every lookup must succeed exactly once; integer constants may be
+//! literals or named `const`s of the same file; `assert!` messages are ignored)
 //!   devicecode.rs  fn default_devicecode_interval() -> u64 { <int> }
 //!                  const DEFAULT_MAX_BACKOFF_INTERVAL: Duration = Duration::from_secs(<int>);
-//!                  process_response: arm `..::SlowDown => ..( <lhs> <op> Duration::from_secs(<int>) | <lhs>.<x>_add(Duration::from_secs(<int>)) )..`
-//!                  DeviceAccessTokenRequest::{request, request_async}: `if <lhs> <op> timeout_dt { .. }`
-//!   types.rs       PkceCodeChallenge::new_random_len: assert!((<int> ..=|.. <int>).contains(<subject>))
-//!                  PkceCodeChallenge::from_code_verifier_{sha256,plain}:
-//!                      assert!(<s> <op> <int> && <s> <op> <int>);  code_challenge_method: PkceCodeChallengeMethod::new("<lit>".to_string())
+//!   types.rs       PkceCodeChallenge::new_random_len: one range assertion, read as `lo <= subject <= hi`:
+//!                      assert!((<lo> ..=|.. <hi>).contains(<subject>)) | assert!(<s> >= <lo> && <s> <= <hi>)   (mini::range_check)
+//!                  PkceCodeChallenge::from_code_verifier_{sha256,plain}: one such assertion on the verifier length, directly
+//!                      or in a private function called as a statement (mini::asserts_of);
+//!                      code_challenge_method: PkceCodeChallengeMethod::new("<lit>".to_string())
 //!                  new_random_sha256 / new_random_plain / CsrfToken::new_random: one call `..new_random.._len(<int>)`
 //!   lib.rs         const CONTENT_TYPE_JSON / CONTENT_TYPE_FORMENCODED: &str = "<lit>";
-//!   revocation.rs  revoke_token_impl: `if <lhs> <op> "<lit>" { return Err(..) }`
-//!   endpoint.rs    check_response_status: `if <lhs> <op> StatusCode::<X> { <error branch> } else { Ok(()) }`
+//!   revocation.rs  revoke_token_impl: `if <scheme> != "<lit>" { return Err(<..>::<V>("<name>")) }`, the same as a `match`,
+//!                  or either of them in a private function called with `?` (scheme_guards)
+//! (the slow_down expression, the deadline comparison and the status check are translated by poll.rs / respflow.rs)
 use crate::inventory::Inv;
 use crate::{canon, fail, lean, Failure, Sources, R};
 use syn::visit::Visit;
-
-pub struct Cmp {
-    pub lhs: String,
-    pub op: String,
-    pub rhs: String,
-}
-
-fn binop(op: &syn::BinOp) -> String {
-    canon(op)
-}
 
 fn int_lit(e: &syn::Expr) -> Option<u64> {
     if let syn::Expr::Lit(l) = e {
@@ -104,67 +96,17 @@ impl<'ast, 'a> Visit<'ast> for FindConst<'a> {
     }
 }
 
-struct SlowDown {
-    hits: Vec<(String, String, u64)>,
-}
-impl<'ast> Visit<'ast> for SlowDown {
-    fn visit_arm(&mut self, a: &'ast syn::Arm) {
-        if canon(&a.pat).ends_with("::SlowDown") {
-            struct B<'b>(&'b mut Vec<(String, String, u64)>);
-            impl<'ast, 'b> Visit<'ast> for B<'b> {
-                fn visit_expr_binary(&mut self, b: &'ast syn::ExprBinary) {
-                    if let Some(n) = from_secs(&b.right) {
-                        self.0.push((canon(&b.left), canon(&b.op), n));
-                    } else if let Some(n) = from_secs(&b.left) {
-                        self.0.push((canon(&b.right), canon(&b.op), n));
-                    }
-                    syn::visit::visit_expr_binary(self, b);
-                }
-                fn visit_expr_method_call(&mut self, m: &'ast syn::ExprMethodCall) {
-                    // <lhs>.saturating_add(Duration::from_secs(n)) / .checked_add(..) / .wrapping_add(..)
-                    if m.args.len() == 1 && m.method.to_string().ends_with("_add") {
-                        if let Some(n) = from_secs(&m.args[0]) {
-                            self.0.push((canon(&m.receiver), m.method.to_string(), n));
-                        }
-                    }
-                    syn::visit::visit_expr_method_call(self, m);
-                }
-            }
-            B(&mut self.hits).visit_expr(&a.body);
-        }
-        syn::visit::visit_arm(self, a);
-    }
-}
-
-struct IfCmp {
-    /// (lhs, op, rhs expr, then-block canon, else canon)
-    hits: Vec<(String, String, syn::Expr, String, Option<String>)>,
-}
-impl<'ast> Visit<'ast> for IfCmp {
-    fn visit_expr_if(&mut self, i: &'ast syn::ExprIf) {
-        if let syn::Expr::Binary(b) = strip(&i.cond) {
-            self.hits.push((
-                canon(&b.left),
-                binop(&b.op),
-                (*b.right).clone(),
-                canon(&i.then_branch),
-                i.else_branch.as_ref().map(|(_, e)| canon(e)),
-            ));
-        }
-        syn::visit::visit_expr_if(self, i);
-    }
-}
-
 struct CallInt<'a> {
     suffix: &'a str,
     hits: Vec<(String, u64)>,
+    src: &'a syn::File,
 }
 impl<'ast, 'a> Visit<'ast> for CallInt<'a> {
     fn visit_expr_call(&mut self, c: &'ast syn::ExprCall) {
         if let syn::Expr::Path(p) = &*c.func {
             if let Some(l) = p.path.segments.last() {
                 if l.ident.to_string().ends_with(self.suffix) && c.args.len() == 1 {
-                    if let Some(n) = int_lit(&c.args[0]) {
+                    if let Some(n) = crate::mini::int_value(self.src, &c.args[0]) {
                         self.hits.push((canon(&c.func), n));
                     }
                 }
@@ -199,27 +141,136 @@ impl<'ast> Visit<'ast> for MethodLit {
     }
 }
 
-fn assert_exprs(f: &syn::ImplItemFn) -> Vec<syn::Expr> {
-    let mut v = Vec::new();
-    for st in &f.block.stmts {
-        if let syn::Stmt::Macro(m) = st {
-            if m.mac.path.is_ident("assert") {
-                if let Ok(e) = syn::parse2::<syn::Expr>(m.mac.tokens.clone()) {
-                    v.push(e);
+fn default_bytes(file: &str, item: &str, f: &syn::ImplItemFn, src: &syn::File) -> R<u64> {
+    let mut c = CallInt { suffix: "_len", hits: vec![], src };
+    c.visit_block(&f.block);
+    if c.hits.len() != 1 {
+        return fail(file, item, format!("exactly one call `..new_random.._len(<int literal or const>)`, found {}", c.hits.len()));
+    }
+    Ok(c.hits[0].1)
+}
+
+/// `Err(<..>::Variant("lit"))` / `return Err(..)` / `{ return Err(..); }` → (Variant, lit)
+fn err_variant(e: &syn::Expr) -> Option<(String, String)> {
+    let e = match crate::mini::strip(e) {
+        syn::Expr::Block(b) if b.label.is_none() && b.block.stmts.len() == 1 => match &b.block.stmts[0] {
+            syn::Stmt::Expr(x, _) => crate::mini::strip(x),
+            _ => return None,
+        },
+        e => e,
+    };
+    let e = match e {
+        syn::Expr::Return(r) => crate::mini::strip(r.expr.as_ref()?),
+        e => e,
+    };
+    if let syn::Expr::Call(c) = e {
+        if crate::mini::ident_of(&c.func).as_deref() == Some("Err") && c.args.len() == 1 {
+            if let syn::Expr::Call(v) = crate::mini::strip(&c.args[0]) {
+                if v.args.len() == 1 {
+                    return Some((crate::mini::last_segment(&v.func)?, str_lit(&v.args[0])?));
                 }
             }
         }
     }
-    v
+    None
 }
 
-fn default_bytes(file: &str, item: &str, f: &syn::ImplItemFn) -> R<u64> {
-    let mut c = CallInt { suffix: "_len", hits: vec![] };
-    c.visit_block(&f.block);
-    if c.hits.len() != 1 {
-        return fail(file, item, format!("exactly one call `..new_random.._len(<int literal>)`, found {}", c.hits.len()));
+/// the tests "the text S must be exactly the literal L, otherwise Err(V(name))" among the top-level statements of a block:
+///   if S != "L" { return Err(V("name")) }   |   if S == "L" { .. } else { [return] Err(..) }
+///   match S { "L" => .., _ => [return] Err(V("name")) }           (as a statement or as the tail)
+///   h(args)?;  with h a private function of the file: its block is searched with the arguments substituted
+/// → (S canonical, L, (V, name))
+fn scheme_guards(file: &syn::File, env: &crate::mini::Env, block: &syn::Block, depth: usize, out: &mut Vec<(String, String, (String, String))>) {
+    use crate::mini::{block_expr, canon as mcanon, ident_of, path_segments, plain_let, strip_ref};
+    let mut env = env.clone();
+    for st in &block.stmts {
+        let e = match st {
+            syn::Stmt::Local(l) => {
+                if let Some((nm, false, init)) = plain_let(l) {
+                    env.bind(&nm, init);
+                }
+                continue;
+            }
+            syn::Stmt::Expr(e, _) => crate::mini::strip(e),
+            _ => continue,
+        };
+        match e {
+            syn::Expr::If(i) => {
+                if let syn::Expr::Binary(b) = crate::mini::strip(&i.cond) {
+                    let (subj, lit) = match (str_lit(&b.right), str_lit(&b.left)) {
+                        (Some(l), _) => (&b.left, l),
+                        (_, Some(l)) => (&b.right, l),
+                        _ => continue,
+                    };
+                    let then_e: syn::Expr = syn::Expr::Block(syn::ExprBlock { attrs: vec![], label: None, block: i.then_branch.clone() });
+                    let refusal = match &b.op {
+                        syn::BinOp::Ne(_) if i.else_branch.is_none() || i.else_branch.as_ref().map(|(_, x)| err_variant(x).is_none()).unwrap_or(false) => err_variant(&then_e),
+                        syn::BinOp::Eq(_) => i.else_branch.as_ref().and_then(|(_, x)| err_variant(x)),
+                        _ => None,
+                    };
+                    if let Some(v) = refusal {
+                        out.push((mcanon(strip_ref(&env.resolve(subj))), lit, v));
+                    }
+                }
+            }
+            syn::Expr::Match(m) => {
+                let mut lits = Vec::new();
+                let mut refusal = None;
+                let mut other = false;
+                for arm in &m.arms {
+                    match &arm.pat {
+                        syn::Pat::Lit(l) if arm.guard.is_none() => match &l.lit {
+                            syn::Lit::Str(x) if err_variant(&arm.body).is_none() => lits.push(x.value()),
+                            _ => other = true,
+                        },
+                        syn::Pat::Wild(_) | syn::Pat::Ident(_) if arm.guard.is_none() => refusal = err_variant(&arm.body),
+                        _ => other = true,
+                    }
+                }
+                if let (false, [l], Some(v)) = (other, lits.as_slice(), refusal) {
+                    out.push((mcanon(strip_ref(&env.resolve(&m.expr))), l.clone(), v));
+                }
+            }
+            syn::Expr::Try(t) if depth > 0 => {
+                // h(args)? | Self::h(args)? | self.h(args)?
+                let (name, args): (String, Vec<syn::Expr>) = match block_expr(&t.expr) {
+                    syn::Expr::Call(c) => match path_segments(&c.func) {
+                        Some(segs) if segs.len() == 1 || (segs.len() == 2 && segs[0] == "Self") => (segs.last().unwrap().clone(), c.args.iter().cloned().collect()),
+                        _ => continue,
+                    },
+                    syn::Expr::MethodCall(mc) if ident_of(&mc.receiver).as_deref() == Some("self") => (mc.method.to_string(), mc.args.iter().cloned().collect()),
+                    _ => continue,
+                };
+                let mut callee: Option<(&syn::Signature, &syn::Block)> = free_fn(file, &name).filter(|f| matches!(f.vis, syn::Visibility::Inherited)).map(|f| (&f.sig, &*f.block));
+                if callee.is_none() {
+                    for it in &file.items {
+                        if let syn::Item::Impl(im) = it {
+                            if im.trait_.is_none() {
+                                for ii in &im.items {
+                                    if let syn::ImplItem::Fn(f) = ii {
+                                        if f.sig.ident == name.as_str() && matches!(f.vis, syn::Visibility::Inherited) {
+                                            callee = Some((&f.sig, &f.block));
+                                        }
+                                    }
+                                }
+                            }
+                        }
+                    }
+                }
+                if let Some((sig, blk)) = callee {
+                    let params = crate::mini::param_names(sig);
+                    if params.len() == args.len() {
+                        let mut inner = crate::mini::Env::default();
+                        for (p, a) in params.iter().zip(args.iter()) {
+                            inner.map.insert(p.clone(), env.resolve(strip_ref(a)));
+                        }
+                        scheme_guards(file, &inner, blk, depth - 1, out);
+                    }
+                }
+            }
+            _ => {}
+        }
     }
-    Ok(c.hits[0].1)
 }
 
 pub fn extract(srcs: &Sources, inv: &Inv, soft: &mut Vec<Failure>) -> R<String> {
@@ -272,32 +323,18 @@ pub fn extract(srcs: &Sources, inv: &Inv, soft: &mut Vec<Failure>) -> R<String> 
             UNT
         }
     };
-    let (rlo, rhi, rincl, rsubj, len_checks, methods) = match (|| -> R<_> {
-    // 4. PKCE bounds
+    let (rlo, rhi, rsubj, len_checks, methods) = match (|| -> R<_> {
+    // 4. PKCE bounds.  Every `assert!` the function executes (directly or through a private helper it calls as a
+    // statement) is read as an inclusive range `lo <= subject <= hi`; parameters are written p0, p1, ..
     let nrl = match impl_fn(ty, "PkceCodeChallenge", "new_random_len") {
         Some(f) => f,
         None => return fail("types.rs", "PkceCodeChallenge::new_random_len", "the function to exist"),
     };
-    let mut range = None;
-    for e in assert_exprs(nrl) {
-        if let syn::Expr::MethodCall(m) = &e {
-            if m.method == "contains" && m.args.len() == 1 {
-                if let syn::Expr::Range(r) = strip(&m.receiver) {
-                    if let (Some(a), Some(b)) = (&r.start, &r.end) {
-                        if let (Some(lo), Some(hi)) = (int_lit(a), int_lit(b)) {
-                            if range.is_some() {
-                                return fail("types.rs", "PkceCodeChallenge::new_random_len", "exactly one range assertion");
-                            }
-                            range = Some((lo, hi, matches!(r.limits, syn::RangeLimits::Closed(_)), canon(&m.args[0])));
-                        }
-                    }
-                }
-            }
-        }
-    }
-    let (rlo, rhi, rincl, rsubj) = match range {
-        Some(r) => r,
-        None => return fail("types.rs", "PkceCodeChallenge::new_random_len", "`assert!((<int>..=<int>).contains(&num_bytes))`"),
+    let ranges: Vec<crate::mini::RangeCheck> =
+        crate::mini::asserts_of(ty, Some("PkceCodeChallenge"), &nrl.sig, &nrl.block).iter().filter_map(|e| crate::mini::range_check(ty, e)).collect();
+    let (rlo, rhi, rsubj) = match ranges.as_slice() {
+        [r] => (r.lo, r.hi, r.subject.clone()),
+        _ => return fail("types.rs", "PkceCodeChallenge::new_random_len", format!("exactly one range assertion `assert!((<lo>..=<hi>).contains(&num_bytes))`, found {}", ranges.len())),
     };
     let mut len_checks = Vec::new();
     let mut methods = Vec::new();
@@ -307,26 +344,13 @@ pub fn extract(srcs: &Sources, inv: &Inv, soft: &mut Vec<Failure>) -> R<String> 
             Some(f) => f,
             None => return fail("types.rs", &item, "the function to exist"),
         };
-        let asserts = assert_exprs(f);
-        let shape = "exactly one `assert!(<len> <op> <int> && <len> <op> <int>)`";
-        let e = match asserts.as_slice() {
-            [e] => e,
-            _ => return fail("types.rs", &item, shape),
-        };
-        let (l, conj, r) = match strip(e) {
-            syn::Expr::Binary(b) => (strip(&b.left), binop(&b.op), strip(&b.right)),
-            _ => return fail("types.rs", &item, shape),
-        };
-        let side = |x: &syn::Expr| -> Option<(String, String, u64)> {
-            if let syn::Expr::Binary(b) = x {
-                if let Some(n) = int_lit(&b.right) {
-                    return Some((canon(&b.left), binop(&b.op), n));
-                }
-            }
-            None
-        };
-        match (side(l), side(r)) {
-            (Some(a), Some(b)) => len_checks.push((fname.to_string(), conj, a, b)),
+        let asserts = crate::mini::asserts_of(ty, Some("PkceCodeChallenge"), &f.sig, &f.block);
+        let shape = "exactly one length assertion `assert!(<len> >= <int> && <len> <= <int>)` / `assert!((<int>..=<int>).contains(&<len>))` (directly or in a private helper)";
+        match asserts.as_slice() {
+            [e] => match crate::mini::range_check(ty, e) {
+                Some(r) => len_checks.push((fname.to_string(), r.subject, r.lo, r.hi)),
+                None => return fail("types.rs", &item, shape),
+            },
             _ => return fail("types.rs", &item, shape),
         }
         let mut ml = MethodLit { hits: vec![] };
@@ -342,22 +366,22 @@ pub fn extract(srcs: &Sources, inv: &Inv, soft: &mut Vec<Failure>) -> R<String> 
             }
         }
     }
-        Ok((rlo, rhi, rincl, rsubj, len_checks, methods))
+        Ok((rlo, rhi, rsubj, len_checks, methods))
     })() {
         Ok(v) => v,
         Err(e) => {
             soft.push(e);
-            (UNT, UNT, false, "<untranslated>".to_string(), Vec::new(), Vec::new())
+            (UNT, UNT, "<untranslated>".to_string(), Vec::new(), Vec::new())
         }
     };
     let (pk_sha, pk_plain, csrf) = match (|| -> R<_> {
     // 6. default byte counts
     let pk_sha = match impl_fn(ty, "PkceCodeChallenge", "new_random_sha256") {
-        Some(f) => default_bytes("types.rs", "PkceCodeChallenge::new_random_sha256", f)?,
+        Some(f) => default_bytes("types.rs", "PkceCodeChallenge::new_random_sha256", f, ty)?,
         None => return fail("types.rs", "PkceCodeChallenge::new_random_sha256", "the function to exist"),
     };
     let pk_plain = match impl_fn(ty, "PkceCodeChallenge", "new_random_plain") {
-        Some(f) => default_bytes("types.rs", "PkceCodeChallenge::new_random_plain", f)?,
+        Some(f) => default_bytes("types.rs", "PkceCodeChallenge::new_random_plain", f, ty)?,
         None => return fail("types.rs", "PkceCodeChallenge::new_random_plain", "the function to exist"),
     };
     let csrf = {
@@ -367,7 +391,7 @@ pub fn extract(srcs: &Sources, inv: &Inv, soft: &mut Vec<Failure>) -> R<String> 
         };
         let f = items.iter().find_map(|ii| if let syn::ImplItem::Fn(f) = ii { if f.sig.ident == "new_random" { Some(f) } else { None } } else { None });
         match f {
-            Some(f) => default_bytes("types.rs", "CsrfToken::new_random", f)?,
+            Some(f) => default_bytes("types.rs", "CsrfToken::new_random", f, ty)?,
             None => return fail("types.rs", "CsrfToken::new_random", "the function to exist"),
         }
     };
@@ -397,8 +421,8 @@ pub fn extract(srcs: &Sources, inv: &Inv, soft: &mut Vec<Failure>) -> R<String> 
             vec!["<untranslated>".to_string(), "<untranslated>".to_string()]
         }
     };
-    let (scheme_cmp, scheme_lit, scheme_then) = match (|| -> R<_> {
-    // 7. https check
+    let (scheme_subject, scheme_lit, scheme_err) = match (|| -> R<_> {
+    // 7. https check: the one place where revoke_token_impl (or a private helper it calls with `?`) refuses a URL
     let rti = {
         let mut found = None;
         for it in &rev.items {
@@ -417,31 +441,30 @@ pub fn extract(srcs: &Sources, inv: &Inv, soft: &mut Vec<Failure>) -> R<String> 
             None => return fail("revocation.rs", "revoke_token_impl", "the function to exist"),
         }
     };
-    let mut ic = IfCmp { hits: vec![] };
-    ic.visit_block(&rti.block);
-    let hits: Vec<_> = ic.hits.iter().filter(|h| str_lit(&h.2).is_some()).collect();
-    let (scheme_cmp, scheme_lit, scheme_then) = match hits.as_slice() {
-        [h] => (Cmp { lhs: h.0.clone(), op: h.1.clone(), rhs: canon(&h.2) }, str_lit(&h.2).unwrap(), h.3.clone()),
-        _ => return fail("revocation.rs", "revoke_token_impl", format!("exactly one `if <scheme> <op> \"<lit>\"`, found {}", hits.len())),
-    };
-        Ok((scheme_cmp, scheme_lit, scheme_then))
+    let mut env = crate::mini::Env::default();
+    for (k, p) in crate::mini::param_names(&rti.sig).iter().enumerate() {
+        env.rename(p, &format!("p{k}"));
+    }
+    let mut hits = Vec::new();
+    scheme_guards(rev, &env, &rti.block, 2, &mut hits);
+    match hits.as_slice() {
+        [h] => Ok(h.clone()),
+        _ => fail("revocation.rs", "revoke_token_impl", format!("exactly one scheme test `if <scheme> != \"<lit>\" {{ return Err(<..>::<Variant>(\"<name>\")) }}` (or the same as a `match`, or in a private helper called with `?`), found {}", hits.len())),
+    }
     })() {
         Ok(v) => v,
         Err(e) => {
             soft.push(e);
-            (Cmp { lhs: "<untranslated>".into(), op: "<untranslated>".into(), rhs: "<untranslated>".into() }, "<untranslated>".to_string(), "<untranslated>".to_string())
+            ("<untranslated>".to_string(), "<untranslated>".to_string(), ("<untranslated>".to_string(), "<untranslated>".to_string()))
         }
     };
-    let cmp = |c: &Cmp| format!("{{ lhs := {}, op := {}, rhs := {} }}", s(&c.lhs), s(&c.op), s(&c.rhs));
     let mut o = String::from(HEADER);
     o.push_str("Source: src/devicecode.rs, src/types.rs, src/lib.rs, src/revocation.rs.\nExpressions are given as canonical token text (all whitespace removed).\n-/\nnamespace Gen.Consts\n\n");
-    o.push_str("/-- a comparison `lhs op rhs` as written in the source -/\nstructure Cmp where\n  lhs : String\n  op : String\n  rhs : String\nderiving DecidableEq, Repr\n\n");
-    o.push_str("/-- `assert!(subject loOp lo conj subject hiOp hi)` -/\nstructure LenCheck where\n  fn_ : String\n  conj : String\n  first : String × String × Nat\n  second : String × String × Nat\nderiving DecidableEq, Repr\n\n");
+    o.push_str("/-- the length assertion a constructor executes, as `lo <= subject <= hi` (both inclusive) -/\nstructure LenCheck where\n  fn_ : String\n  subject : String\n  lo : Nat\n  hi : Nat\nderiving DecidableEq, Repr\n\n");
     o.push_str(&format!("/-- `fn default_devicecode_interval() -> u64` (src/devicecode.rs) -/\ndef defaultDevicecodeInterval : Nat := {ddi}\n\n"));
     o.push_str(&format!("/-- `const DEFAULT_MAX_BACKOFF_INTERVAL = Duration::from_secs(_)` in process_response -/\ndef defaultMaxBackoffSecs : Nat := {backoff}\n\n"));
     o.push_str(&format!(
-        "/-- `assert!((lo ..[=] hi).contains(subject))` in PkceCodeChallenge::new_random_len -/\ndef pkceBytesLo : Nat := {rlo}\ndef pkceBytesHi : Nat := {rhi}\ndef pkceBytesHiInclusive : Bool := {}\ndef pkceBytesSubject : String := {}\n\n",
-        b(rincl),
+        "/-- the range assertion of PkceCodeChallenge::new_random_len, as `lo <= subject <= hi` (both inclusive; parameters written p0, ..) -/\ndef pkceBytesLo : Nat := {rlo}\ndef pkceBytesHi : Nat := {rhi}\ndef pkceBytesSubject : String := {}\n\n",
         s(&rsubj)
     ));
     o.push_str(&format!(
@@ -449,10 +472,7 @@ pub fn extract(srcs: &Sources, inv: &Inv, soft: &mut Vec<Failure>) -> R<String> 
         list_multiline(
             &len_checks
                 .iter()
-                .map(|(f, conj, a, bb)| format!(
-                    "{{ fn_ := {}, conj := {}, first := ({}, {}, {}), second := ({}, {}, {}) }}",
-                    s(f), s(conj), s(&a.0), s(&a.1), a.2, s(&bb.0), s(&bb.1), bb.2
-                ))
+                .map(|(f, subj, lo, hi)| format!("{{ fn_ := {}, subject := {}, lo := {lo}, hi := {hi} }}", s(f), s(subj)))
                 .collect::<Vec<_>>(),
             "  "
         )
@@ -470,10 +490,10 @@ pub fn extract(srcs: &Sources, inv: &Inv, soft: &mut Vec<Failure>) -> R<String> 
         s(&cts[1])
     ));
     o.push_str(&format!(
-        "/-- revoke_token_impl: `if <lhs> <op> \"<lit>\" {{ <then> }}` -/\ndef revokeSchemeCheck : Cmp := {}\ndef revokeSchemeLit : String := {}\ndef revokeSchemeThen : String := {}\n\n",
-        cmp(&scheme_cmp),
+        "/-- revoke_token_impl: unless `<subject> == \"<lit>\"` it returns `Err(<..>::<variant>(\"<name>\"))` (parameters written p0, ..) -/\ndef revokeSchemeSubject : String := {}\ndef revokeSchemeLit : String := {}\ndef revokeSchemeError : String × String := {}\n\n",
+        s(&scheme_subject),
         s(&scheme_lit),
-        s(&scheme_then)
+        pair(&scheme_err.0, &scheme_err.1)
     ));
     o.push_str("end Gen.Consts\n");
     Ok(o)
